@@ -346,6 +346,22 @@ def gen_multiclk(seed, did):
     return L, ["multiclk"]
 
 
+LONG_HZ = [300000000, 333300000, 350000000, 700000000, 133333333, 266000000, 77000000]
+
+
+def gen_longrun(seed, did, tier):
+    """designgen shapes on a clock whose period is NOT a whole number of picoseconds, with a long recording (one SET/CHECK round per
+    cycle shortly after the rising edge) for the exporter's test-bench recorder: the whole-picosecond ADV records must not drift
+    against the test bench's own clock process"""
+    rng = random.Random(seed)
+    lines, used = G.gen_design(seed, did)
+    n = rng.choice([1200, 1600, 2500]) if tier == "quick" else rng.choice([2000, 4000, 6000])
+    tight = rng.random() < 0.6
+    cfg = rng.choice(["sync high", "async high", "sync low", "none high"])
+    head = [lines[0], f"clockcfg {cfg} hz={rng.choice(LONG_HZ)}", f"longrun {n}" + (" tight" if tight else "")]
+    return head + lines[1:], used + ["longrun"]
+
+
 def gen_all(seed, tier):
     ndes = 60 if tier == "quick" else 1500
     nwide = 8 if tier == "quick" else 150
@@ -365,6 +381,8 @@ def gen_all(seed, tier):
         designs.append(gen_edges(seed * 500009 + i, f"e{i}"))
     for i in range(8 if tier == "quick" else 120):
         designs.append(gen_multiclk(seed * 900007 + i, f"k{i}"))
+    for i in range(3 if tier == "quick" else 24):
+        designs.append(gen_longrun(seed * 1100009 + i, f"t{i}", tier))
     nmem = 12 if tier == "quick" else 200
     for i in range(nmem):
         # quick: every image pattern at least once
@@ -455,6 +473,10 @@ def analyse(did, out, progl=()):
         if tvf.exists() and tbf.exists():
             tv = S.replay_testvectors(el, tvf.read_text(), tbf.read_text())
             r["tv"] = dict(checks=tv["checks"], sets=tv["sets"], failed=tv["failed"], edges=tv["edges"], failed_known=0)
+            tbt = out / f"{did}.tbtrace"
+            if tbt.exists():
+                tb_ = S.check_timebase(tbt.read_text(), tvf.read_text())
+                r["timebase"] = tb_
             if tv["failed"]:
                 key = classify_known_tv(el, tv, tvf.read_text(), tbf.read_text(), progl)
                 if key:
@@ -764,6 +786,14 @@ def main():
         for key in dict.fromkeys(m.get("known_key") for m in a["known"]):
             disagreements += 1
             knowns.append((did, mode, next(m for m in a["known"] if m.get("known_key") == key)))
+        tbi = a.get("timebase")
+        if tbi and tbi["first_bad"] and "round" in tbi["first_bad"]:
+            disagreements += 1
+            violations.append(dict(kind="time base of the exporter's recorded testbench.testvectors drifts: the accumulated ADV time of a SET/CHECK round "
+                                        "leaves the interval [simulator time - 1 ps, next simulator event], so the stimulus process of the exported test bench "
+                                        "slides against its clock process", design=did, mode=mode, program=prog[did], failing=tbi["first_bad"],
+                                   failed_checks=(a.get("tv") or {}).get("failed", [])[:2], vhdl=excerpt(WORK / ("run_" + mode), did, n=10)))
+            continue
         tv = a.get("tv")
         if tv and tv["failed"] and not a["mismatches"]:
             disagreements += 1
@@ -838,7 +868,7 @@ def main():
     rep.cov["rule"] = ("design programs: corpus/C02 (hand-written: async/sync x high/low reset, registers / memory ports on rising+falling+both edges of one clock pin with data crossing between the edges, several reset pins, nested entities and areas, wide arithmetic, non-total mux, "
                        "memories incl. ROM/RAM 16x8 with words 0..5 undefined, tristate, falling edge, X-selector mux) + seeded lib/designgen.py shapes (if/elif chains, mux chains/merges, registers with "
                        "reset+enable, hold loops, constant folding, areas/entities, slices, shifts, arithmetic), ~45% with a random reset kind/polarity, "
-                       "+ wide-operand programs (8..128 bit; interpreter route only) + mixed-edge programs (derived clocks on one pin: falling / both edges, own reset names/kinds/polarities, cross-edge data paths; interpreter route only) + multi-clock-pin programs (2-3 pins of different frequency with colliding names, per-clock sub-entities; interpreter route only) + memory programs (ROM/RAM, declared partially defined power-on images, full address sweeps; interpreter route only).  Each is built, post-processed and exported by the real library. "
+                       "+ wide-operand programs (8..128 bit; interpreter route only) + mixed-edge programs (derived clocks on one pin: falling / both edges, own reset names/kinds/polarities, cross-edge data paths; interpreter route only) + multi-clock-pin programs (2-3 pins of different frequency with colliding names, per-clock sub-entities; interpreter route only) + long-recording programs (designgen shapes on clocks with non-integral-ps periods, 1200-6000 recorded cycles) + memory programs (ROM/RAM, declared partially defined power-on images, full address sweeps; interpreter route only).  Each is built, post-processed and exported by the real library. "
                        "non-trivial = distinct exported top-entity text whose lifted netlist contains at least one register / mux / arithmetic / compare / "
                        "shift node AND whose certificate was accepted by the verified checker")
     rep.cov["output_modes"] = modes
@@ -863,6 +893,11 @@ def main():
     rep.cov["unsupported_share"] = round((len(uns) + len(lift_uns)) / max(1, len(exported)), 4)
     memd = [i for i in ids if any(l.startswith("mem ") and "fill=" in l for l in prog[i])]
     rep.cov["memories_with_declared_power_on_image"] = len(memd)
+    rep.cov["recordings_time_base_checked"] = sum(1 for a in allr if a.get("timebase") and not (a["timebase"]["first_bad"] and "round" not in a["timebase"]["first_bad"]))
+    rep.cov["recordings_time_base_not_comparable"] = sum(1 for a in allr if a.get("timebase") and a["timebase"]["first_bad"] and "round" not in a["timebase"]["first_bad"])
+    rep.cov["recorded_rounds_time_base_checked"] = sum(a["timebase"]["groups"] for a in allr if a.get("timebase"))
+    rep.cov["long_recordings"] = sum(1 for i in ids if any(l.startswith("longrun ") for l in prog[i]))
+    rep.cov["clock_frequencies_hz"] = sorted({int(x[3:]) for i in ids for l in prog[i] if l.startswith("clockcfg") for x in l.split() if x.startswith("hz=")} | {100000000})
     mp = [a for a in allr if a["status"] == "ok" and len([x for x in a.get("meta", {}).get("clkports", "-").split(",") if x != "-"]) > 1]
     rep.cov["multi_clock_pin_exports"] = len(mp)
     rep.cov["multi_clock_pin_exports_with_colliding_names"] = sum(1 for a in mp if any(re.search(r"_\d+$", x) for x in a["meta"]["clkports"].split(",")))
@@ -901,6 +936,7 @@ def main():
         "route 1: on undefined values the lifted netlist is evaluated with gatery's node semantics (NetDefs/NodeSemDefs), not numeric_std's; for the VHDL text only two-valued agreement (all stimuli, all cycles) and never-contradict of the lifted circuit are claimed",
         "route 2: VHDL metavalue rules (\"=\" on metavalues FALSE, X condition takes ELSE, CASE falls to OTHERS, arithmetic all-X) are modelled, but only the sampled stimuli are replayed",
         "dumped netlist and lifted netlist are each tied to the real ReferenceSimulator by per-cycle trace comparison (tie); circuit model: single clock, rising edge, reset schedule from the real simulator's event log",
+        "recorder time base: the exporter's test vectors are replayed with the test bench's clock process(es) running from the half-period constants written in the exported testbench.vhd, independently of the accumulated ADV times of the stimulus process; a few designs use clocks whose period is not a whole number of ps (300 / 333.3 / 350 / 700 MHz ...) with recordings of 1200-6000 cycles; additionally, for EVERY recording, the accumulated ADV time of each SET/CHECK round must lie within [exact simulator time - 1 ps, next simulator event] (no drift)",
         "several clock pins: designs with 2-3 clock pins of different frequency (unnamed second root clocks and multiplied/divided derived clocks whose names collide with the design clock's, sub-entities and inferred memories using a strict subset of them, nested entities, marked crossings) are elaborated by resolving every clock / reset port through the chain of port maps to a top-level port; the reference simulator's edges and reset levels are replayed per exported top-level port name at the resolution of the fastest half period (edges of one instant applied together), so a clock or reset port bound to the wrong top-level pin changes observed values; interpreter route + exporter test vectors only",
         "clock edges: every design is additionally replayed on HALF-PERIOD traces (inputs change and outputs are sampled between every two clock edges, reset pins by their exported names), so the edge written in each exported process (rising_edge / falling_edge / 'event) is what decides when a register updates; designs with falling/both-edge registers or several reset pins on one clock pin are covered by this interpreter route only (the certificate checker's circuit model is single rising-edge clock, one reset pin)",
         "memories (GenericMemoryEntity: array signal with the power-on aggregate `(k => \"..\", others => (others => 'X'))`, asynchronous and registered read ports, read latency registers, write ports on either edge) are executed by the interpreter only (lifter-unsupported): ROMs and RAMs with declared, partially defined power-on images (holes at the start / middle / end, single words, single bits; widths 1..9, depths 2..32) are read at every address by counter-driven ports; known findings mem-exact-undefined-read-address and reg-output-port-no-initial-value are accepted only when re-running the interpreter with exactly that one deviation removed reproduces the whole trace (see classify_known); unsupported by both: tristate / inout pins, external nodes, generics, multi-clock designs; falling-edge clocks and designs wider than %d input bits are covered by the interpreter route only" % MAX_CERT_IN_BITS,
